@@ -20,6 +20,13 @@ fn dispatch(req: &J) -> J {
         "render" => render::run(req),
         "history" => multi::history(req),
         "threads" => multi::threads(req),
+        "dateparse" => {
+            // DateTime::from_str on a text: the components, or null
+            match liquid_core::model::DateTime::from_str(req["text"].as_str().unwrap()) {
+                Some(d) => json!({"dt": val::scalar_to_json(&liquid_core::model::Scalar::new(d))}),
+                None => json!({"dt": null}),
+            }
+        }
         k => json!({"error": format!("unknown kind {}", k)}),
     }
 }
